@@ -23,7 +23,7 @@ def text_key(e):
 
 def decode_sites(cx, fn):
     sites = fn.calls('read_fcs_data_segment')
-    cx.need(len(sites) == 2, INIT + ': expected two read_fcs_data_segment call sites, found %d' % len(sites))
+    cx.need(1 <= len(sites) <= 2, INIT + ': expected one or two read_fcs_data_segment call sites, found %d' % len(sites))
     return sites
 
 
@@ -102,9 +102,9 @@ def decode_callargs(cx):
     if not ok:
         return fn
     for a in common:
-        same = sym.norm(kws[0][a]) == sym.norm(kws[1][a])
-        fn.ob('CALLARGS', 'HEADER-offset and TEXT-offset decode sites agree on %s' % a, same, kws[1][a],
-              detail='' if same else '%s vs %s' % (ast.unparse(kws[0][a]), ast.unparse(kws[1][a])), key='agree-' + a)
+        same = all(sym.norm(kws[0][a]) == sym.norm(k_[a]) for k_ in kws[1:])
+        fn.ob('CALLARGS', 'HEADER-offset and TEXT-offset decoding agree on %s' % a, same, kws[-1][a],
+              detail='' if same else 'sites differ on %s' % a, key='agree-' + a)
     want = {
         'datatype': "self._text['$DATATYPE']", 'num_events': "int(self._text['$TOT'])",
         'param_bit_widths': L['param_bit_widths'], 'param_ranges': L['param_ranges'], 'big_endian': L['big_endian'],
@@ -121,31 +121,70 @@ def decode_callargs(cx):
     d = [st for st in fn.stmts(ast.Assign) if isinstance(st.targets[0], ast.Name) and st.targets[0].id == L['D']]
     ok = len(d) == 1 and sym.norm(d[0].value, keep_casts=True) == sym.norm("int(self._text['$PAR'])", keep_casts=True)
     fn.ob('FORMULA', 'the parameter count is $PAR', ok, d[0] if d else fn.ast, key='def-D')
-    # placement of offsets
-    hs = [s for s in sites if sym.norm(kwarg(s, 'begin')) == sym.norm('self._header.data_begin')]
-    ts = [s for s in sites if s not in hs]
-    ok = len(hs) == 1 and sym.norm(kwarg(hs[0], 'end')) == sym.norm('self._header.data_end')
-    if ok:
-        g = [a for a in fn.ancestors(hs[0]) if isinstance(a, ast.If)]
-        ok = bool(g) and sym.norm(g[0].test) == sym.norm('self._header.data_begin and self._header.data_end') \
-            and fn.in_body_of(hs[0], g[0], 'body')
-        top = g[0] if g else None
-    fn.ob('CALLARGS', 'DATA offsets of the HEADER are used (with priority) when both are non-zero', ok, hs[0] if hs else fn.ast,
+    # provenance of the offsets handed to the decoder, whether there is one call per source or one call fed by
+    # variables: (begin, end) pairs that can reach a call, with the conditions under which they were chosen
+    from ..rules import run_context, expand_temps_ast
+    H = (sym.norm('self._header.data_begin'), sym.norm('self._header.data_end'))
+    T = (sym.norm("int(self._text['$BEGINDATA'])"), sym.norm("int(self._text['$ENDDATA'])"))
+
+    def sources(site, arg):
+        """[(normal form of the value, statement that chose it)]"""
+        e = kwarg(site, arg)
+        if isinstance(e, ast.Name) and e.id not in fn.params:
+            out = []
+            for d in fn.rd.reaching(fn.node(site), e.id):
+                v = fn.rd.assigned_value(d, e.id) if d.kind != 'entry' else None
+                out.append((fn.nf(v, at=d.ast) if v is not None else None, d.ast if d.kind != 'entry' else None))
+            return out
+        return [(sym.norm(e), fn.cfg.stmt_of(site))]
+    pairs = []
+    for s_ in sites:
+        bs, es = sources(s_, 'begin'), sources(s_, 'end')
+        for bv, bst in bs:
+            for ev, est in es:
+                cb = run_context(fn, bst, None, resolved=True) if bst is not None else None
+                ce = run_context(fn, est, None, resolved=True) if est is not None else None
+                if cb == ce:
+                    pairs.append((bv, ev, bst, s_, set(cb or [])))
+    hp = [p_ for p_ in pairs if (p_[0], p_[1]) == H]
+    tp = [p_ for p_ in pairs if (p_[0], p_[1]) == T]
+    other = [p_ for p_ in pairs if p_ not in hp and p_ not in tp]
+    lit_h = {'when ' + sym.show(H[0]), 'when ' + sym.show(H[1])}
+    ok = len(hp) == 1 and lit_h <= hp[0][4] and not other
+    fn.ob('CALLARGS', 'DATA offsets of the HEADER are used (with priority) when both are non-zero', ok, hp[0][2] if hp else fn.ast,
+          detail='' if ok else 'offset pairs reaching the decoder: %d from HEADER, %d from TEXT, %d other' % (len(hp), len(tp), len(other)),
           key='header-offsets')
-    ok2 = len(ts) == 1
+    ok2 = len(tp) == 1 and not other
     if ok2:
-        b, e = kwarg(ts[0], 'begin'), kwarg(ts[0], 'end')
-        bv = fn.nf(b, at=ts[0])
-        ev = fn.nf(e, at=ts[0])
-        ok2 = sym.norm("int(self._text['$BEGINDATA'])") == bv and sym.norm("int(self._text['$ENDDATA'])") == ev
-        g = [a for a in fn.ancestors(ts[0]) if isinstance(a, ast.If)]
-        ok2 = ok2 and len(g) >= 2 and sym.norm(g[0].test) == sym.norm('%s and %s' % (dotted(b), dotted(e))) \
-            and sym.norm(g[1].test) == sym.norm("self._header.version in ('FCS3.0', 'FCS3.1')") \
-            and always_raises(g[0].orelse) and 'ValueError' in raised_types(g[0].orelse)
-        if ok and ok2:
-            ok2 = fn.in_body_of(ts[0], top, 'orelse') and always_raises(g[1].orelse)
+        bv, ev, dst, site_, ctx_ = tp[0]
+        ver = 'when ' + sym.show(sym.norm("self._header.version in ('FCS3.0', 'FCS3.1')"))
+        noth = 'when ' + sym.show(sym.negate_deep(sym.norm('self._header.data_begin and self._header.data_end')))
+        ok2 = ver in ctx_ and noth in ctx_
+        # both TEXT offsets are non-zero before they are used: the call sits under `if b and e`, or a refusal
+        # (ValueError) of `not (b and e)` lies on every path from their definition to the call
+        if ok2:
+            sc = set(run_context(fn, fn.cfg.stmt_of(site_), None, resolved=True) or [])
+            truth = {'when ' + sym.show(bv), 'when ' + sym.show(ev)}
+            okt = truth <= sc
+            if not okt:
+                bname, ename = kwarg(site_, 'begin'), kwarg(site_, 'end')
+                for g, p_ in guards(fn, exc=['ValueError']):
+                    if p_ is False and isinstance(bname, ast.Name) and isinstance(ename, ast.Name) and \
+                            sym.norm(g.test) in (sym.norm('not (%s and %s)' % (bname.id, ename.id)),
+                                                 sym.negate_deep(sym.norm('%s and %s' % (bname.id, ename.id)))):
+                        passing = fn.cfg.assume[id(g)][1]
+                        if fn.cfg.dominates(fn.node(dst), fn.cfg.node_of(g)) and \
+                                not fn.cfg.reaches_avoiding(fn.node(dst), fn.node(site_), [passing]):
+                            okt = True
+            ok2 = okt
     fn.ob('CALLARGS', 'otherwise, for FCS 3.x, $BEGINDATA/$ENDDATA are used; anything else is refused (ValueError)', ok2,
-          ts[0] if ts else fn.ast, key='text-offsets')
+          tp[0][2] if tp else fn.ast, key='text-offsets')
+    # no way to a decode call but through one of the two sources
+    for s_ in sites:
+        chosen = [fn.node(p_[2]) for p_ in hp + tp if p_[3] is s_ and p_[2] is not None]
+        okp = bool(chosen) and not fn.cfg.reaches_avoiding(fn.cfg.entry, fn.node(s_), chosen)
+        fn.ob('CALLARGS', 'a decode call is reached only with offsets taken from the HEADER or from $BEGINDATA/$ENDDATA', okp, s_,
+              key='offsets-only|%d' % sites.index(s_))
     # result stored and made read-only
     for s in sites:
         par = fn.parent.get(id(s))
